@@ -73,6 +73,28 @@ class Seq:
             pos = pos + n
         raise IndexError('Seq.at out of range')
 
+    def canon(self):
+        """canonical tuple of (src, lo, hi): empty segments dropped, adjacent ranges of one
+        source merged (forks on undecided emptiness / adjacency); value-independent sources
+        (fill / zero / bcast) are normalised to offset 0."""
+        out = []
+        for s in self.segs:
+            n = s.hi - s.lo
+            if n <= 0:
+                continue
+            flat = s.src[0] in ('fill', 'zero', 'bcast', 'uninit')
+            lo, hi = (0, n) if flat else (s.lo, s.hi)
+            if out and out[-1][0] == s.src:
+                p = out[-1]
+                if flat:
+                    out[-1] = (s.src, 0, p[2] + n)
+                    continue
+                if p[2] == lo:
+                    out[-1] = (s.src, p[1], hi)
+                    continue
+            out.append((s.src, lo, hi))
+        return tuple(out)
+
     def map_src(self, f):
         return Seq(Seg(f(s.src), s.lo, s.hi) for s in self.segs)
 
